@@ -59,20 +59,26 @@ def enc_steps(content, steps):
     return t
 
 
+def _rb(x):
+    """Returned data of binary and of text handles (text: its utf-8 bytes) in one encoding."""
+    return r_bytes(x.encode("utf-8") if isinstance(x, str) else x)
+
+
 def do_call(f, c):
     n = c[0]
+    text = isinstance(f, io.TextIOBase)
     try:
         if n == "read":
             r = f.read() if c[1] is None else f.read(c[1])
-            return "b" + r_bytes(r)
+            return "b" + _rb(r)
         if n == "readline":
-            return "b" + r_bytes(f.readline() if len(c) == 1 else f.readline(c[1]))
+            return "b" + _rb(f.readline() if len(c) == 1 else f.readline(c[1]))
         if n == "readlines":
-            return "[" + ",".join(r_bytes(x) for x in f.readlines(c[1])) + "]"
+            return "[" + ",".join(_rb(x) for x in f.readlines(c[1])) + "]"
         if n == "write":
-            return r_int(f.write(c[1]))
+            return r_int(f.write(c[1].decode("utf-8") if text else c[1]))
         if n == "writelines":
-            f.writelines([c[1], c[2]])
+            f.writelines([x.decode("utf-8") if text else x for x in (c[1], c[2])])
             return "U"
         if n == "seek":
             return r_int(f.seek(c[1], c[2]))
@@ -88,11 +94,17 @@ def do_call(f, c):
     raise ValueError(n)
 
 
-def run_real(open_fn, read_back, steps):
+def run_real(open_fn, read_back, steps, fs_fn=None):
     handles = []
     res = []
     for s in steps:
-        if s[0] == "open":
+        if s[0] == "fs":
+            # a call on the filesystem itself (getsize / getinfo) between file-object calls
+            try:
+                res.append(r_int(fs_fn(s[1])))
+            except Exception:
+                res.append("rejected")
+        elif s[0] == "open":
             try:
                 handles.append(open_fn(s[1] + "b"))
                 res.append("U")
@@ -173,6 +185,292 @@ def cut_out_of_domain(model, other):
     m = model.split("#")[0][1:-1].split(";")
     o = other.split("#")[0][1:-1].split(";")
     return m, o
+
+
+# ------------------------------------------------------------------------------------------
+# Systematic seek-boundary block: (position class) x (whence) x (target class) for every
+# file-object kind, also after interleaved calls on a second handle / on the filesystem.
+# Oracle: the io object CPython itself gives for the same mode on a temp file holding the
+# same initial content (never the library).
+
+# kind -> (reference io layer, archive member?)
+B_KINDS = [
+    ("mem", "raw", False),        # MemoryFS.openbin -> _MemoryFile
+    ("submem", "raw", False),     # SubFS(MemoryFS).openbin
+    ("memraw", "raw", False),     # MemoryFS.open('..b', buffering=-1) -> RawWrapper(_MemoryFile)
+    ("membuf", "buf", False),     # MemoryFS.open('..b', buffering=3) -> Buffered*(RawWrapper(_MemoryFile))
+    ("memtext", "text", False),   # MemoryFS.open('..') -> TextIOWrapper(RawWrapper(_MemoryFile))
+    ("osfs", "raw", False),       # OSFS.openbin(buffering=0)
+    ("osfsbuf", "buf", False),    # OSFS.openbin(buffering=3)
+    ("osfstext", "text", False),  # OSFS.open('..')
+    ("zipw", "bufdef", False),    # ZipFS(write=True).openbin (files of the archive being written; WrapFS.openbin
+                                  # does not forward `buffering`, so the reference is default-buffered io.open)
+    ("zip", "raw", True),         # ZipFS.openbin -> _ZipExtFile
+    ("zipraw", "raw", True),      # ZipFS.open('rb') -> RawWrapper(_ZipExtFile)
+    ("zipbuf", "buf", True),      # ZipFS.open('rb', buffering=3) -> BufferedReader(RawWrapper(_ZipExtFile))
+    ("ziptext", "text", True),    # ZipFS.open('r') -> TextIOWrapper(RawWrapper(_ZipExtFile))
+    ("tar", "raw", True),         # TarFS.openbin -> RawWrapper(tarfile member)
+    ("tarraw", "raw", True),
+    ("tarbuf", "buf", True),
+    ("tartext", "text", True),
+]
+B_BUF = 3
+B_WHENCE = (0, 1, 2)
+_ARCHIVES = {}
+
+
+def b_ref_open(layer, p):
+    if layer == "raw":
+        return lambda mode: io.open(p, mode, buffering=0)
+    if layer == "buf":
+        return lambda mode: io.open(p, mode, buffering=B_BUF)
+    if layer == "bufdef":
+        return lambda mode: io.open(p, mode)
+    return lambda mode: io.open(p, mode.replace("b", ""), encoding="utf-8", newline="")
+
+
+def b_ref_case(layer, content, steps, d):
+    p = os.path.join(d, "bref")
+    with open(p, "wb") as fh:
+        fh.write(content)
+
+    def rb():
+        with open(p, "rb") as fh:
+            return fh.read()
+    return run_real(b_ref_open(layer, p), rb, steps, fs_fn=lambda which: os.stat(p).st_size)
+
+
+def b_fs_fn(fsobj, path):
+    def call(which):
+        if which == "getsize":
+            return fsobj.getsize(path)
+        return fsobj.getinfo(path, namespaces=["details"]).size
+    return call
+
+
+def b_archive(kind, content):
+    key = (kind[:3], content)
+    if key not in _ARCHIVES:
+        from fs.zipfs import ZipFS
+        from fs.tarfs import TarFS
+        buf = io.BytesIO()
+        w = (ZipFS if key[0] == "zip" else TarFS)(buf, write=True)
+        w.writebytes("f", content)
+        w.close()
+        _ARCHIVES[key] = buf.getvalue()
+    return _ARCHIVES[key]
+
+
+def b_real_case(kind, content, steps, d, cache):
+    """Run the steps on the real file objects of one kind."""
+    from fs.memoryfs import MemoryFS
+    from fs.osfs import OSFS
+    text = lambda mode: mode.replace("b", "")
+    if kind.startswith("mem") or kind == "submem":
+        m = MemoryFS()
+        if kind == "submem":
+            s = m.makedir("d")
+            s.writebytes("f", content)
+            return run_real(lambda mode: s.openbin("f", mode), lambda: m.readbytes("d/f"), steps, b_fs_fn(s, "f"))
+        m.writebytes("f", content)
+        opener = {"mem": lambda mode: m.openbin("f", mode),
+                  "memraw": lambda mode: m.open("f", mode, buffering=-1),
+                  "membuf": lambda mode: m.open("f", mode, buffering=B_BUF),
+                  "memtext": lambda mode: m.open("f", text(mode))}[kind]
+        return run_real(opener, lambda: m.readbytes("f"), steps, b_fs_fn(m, "f"))
+    if kind.startswith("osfs") or kind == "zipw":
+        if kind not in cache:
+            if kind == "zipw":
+                from fs.zipfs import ZipFS
+                cache[kind] = ZipFS(io.BytesIO(), write=True)
+            else:
+                root = os.path.join(d, "b_" + kind)
+                os.makedirs(root, exist_ok=True)
+                cache[kind] = OSFS(root)
+        o = cache[kind]
+        o.writebytes("f", content)
+        opener = {"osfs": lambda mode: o.openbin("f", mode, buffering=0),
+                  "zipw": lambda mode: o.openbin("f", mode),
+                  "osfsbuf": lambda mode: o.openbin("f", mode, buffering=B_BUF),
+                  "osfstext": lambda mode: o.open("f", text(mode))}[kind]
+        return run_real(opener, lambda: o.readbytes("f"), steps, b_fs_fn(o, "f"))
+    from fs.zipfs import ZipFS
+    from fs.tarfs import TarFS
+    r = (ZipFS if kind.startswith("zip") else TarFS)(io.BytesIO(b_archive(kind, content)))
+    sub = kind[3:]
+    opener = {"": lambda mode: r.openbin("f", mode),
+              "raw": lambda mode: r.open("f", mode),
+              "buf": lambda mode: r.open("f", mode, buffering=B_BUF),
+              "text": lambda mode: r.open("f", text(mode))}[sub]
+    try:
+        return run_real(opener, lambda: r.readbytes("f"), steps, b_fs_fn(r, "f"))
+    finally:
+        r.close()
+
+
+def b_prefixes(mode, size0, archive):
+    """Ways of reaching each class of current position (0, middle, EOF, past EOF; by seek,
+    by a short read, by readline, by read-to-EOF, by write, by truncate below the position)."""
+    readable = "r" in mode or "+" in mode
+    writable = mode != "r"
+    out = [("start", []), ("end_seek", [("seek", 0, 2)])]
+    if size0 >= 2:
+        out.append(("mid_seek", [("seek", size0 // 2, 0)]))
+    if not archive:
+        out.append(("past_eof", [("seek", size0 + 2, 0)]))
+    if readable:
+        out += [("short_read", [("read", 2)]), ("readline", [("readline",)]),
+                ("readline2", [("readline",), ("readline",)]), ("eof_read", [("read", None)])]
+    if writable:
+        out += [("after_write", [("write", b"ab")]), ("after_truncate", [("seek", 3, 0), ("truncate", 1)])]
+    return out
+
+
+def b_inters(mode, archive, layer):
+    """Calls interleaved between reaching the position and the boundary seek: on a second
+    handle of the same file, and on the filesystem (getsize/getinfo move shared cursors)."""
+    out = [("h2_read", [("open", "r"), ("call", 1, ("read", 2))]),
+           ("h2_seek_end", [("open", "r"), ("call", 1, ("seek", 0, 2)), ("call", 1, ("tell",))]),
+           ("getsize", [("fs", "getsize")]),
+           ("getinfo", [("fs", "getinfo")]),
+           ("h2_read_getsize", [("open", "r"), ("call", 1, ("readline",)), ("fs", "getsize")])]
+    if not archive:
+        out += [("h2_overwrite", [("open", "r+"), ("call", 1, ("seek", 1, 0)), ("call", 1, ("write", b"ZZ")),
+                                  ("call", 1, ("flush",))]),
+                ("h2_append", [("open", "a"), ("call", 1, ("write", b"TT")), ("call", 1, ("flush",))])]
+    return out
+
+
+def b_probe_state(layer, content, head, d, memo):
+    """(position of handle 0, file size) the io reference is in after `head`."""
+    key = (layer, content, repr(head))
+    if key not in memo:
+        p = os.path.join(d, "bprobe")
+        with open(p, "wb") as fh:
+            fh.write(content)
+        opener = b_ref_open(layer, p)
+        handles = []
+        try:
+            for s in head:
+                if s[0] == "open":
+                    try:
+                        handles.append(opener(s[1] + "b"))
+                    except Exception:
+                        handles.append(None)
+                elif s[0] == "call" and handles[s[1]] is not None:
+                    do_call(handles[s[1]], s[2])
+            if handles[0] is None:
+                memo[key] = None
+            else:
+                pos = handles[0].tell()
+                handles[0].flush()
+                memo[key] = (pos, os.stat(p).st_size)
+        except Exception:
+            memo[key] = None
+        finally:
+            for h in handles:
+                try:
+                    h.close()
+                except Exception:
+                    pass
+    return memo[key]
+
+
+def b_targets(pos, size, archive):
+    """Boundary targets: exactly 0 / the current position / EOF and one before/after each
+    (plus well past EOF); negative targets, and for archive members targets past EOF, are
+    outside the compared domain (DESIGN 9.6)."""
+    t = {0, 1, pos - 1, pos, pos + 1, size - 1, size, size + 1, size + 3}
+    return sorted(x for x in t if x >= 0 and not (archive and x > size))
+
+
+def boundary_cases(kind, layer, archive, tier, seed, d, memo):
+    """Step sequences of the boundary block for one kind (generated against the io reference
+    state, so that the offsets hit the boundaries exactly)."""
+    rnd = random.Random("%s-%d-bound" % (kind, seed))
+    thorough = tier == "thorough"
+    contents = [b"abc\ndef", b"l1\nl2\n\nl4", b""] + ([b"x", b"0123456789", (b"0123456789abcde\n" * 600)[:9001]] if thorough else [])
+    modes = ["r"] if archive else MODES
+    probe = [("tell",), ("read", 2), ("tell",), ("readline",), ("tell",)]
+    wprobe = [("write", b"Q"), ("tell",), ("seek", 0, 0), ("read", None)]
+    out = []
+    stats = dict(combos=0, interleaved=0)
+    for content in contents:
+        for mode in modes:
+            size0 = 0 if "w" in mode else len(content)
+            inters = b_inters(mode, archive, layer)
+            for pname, prefix in b_prefixes(mode, size0, archive):
+                base = [("open", mode)] + [("call", 0, c) for c in prefix]
+                variants = [("none", [])]
+                if thorough:
+                    variants += inters
+                else:
+                    variants += rnd.sample(inters, 2)
+                for iname, inter in variants:
+                    head = base + inter
+                    st = b_probe_state(layer, content, head, d, memo)
+                    if st is None:
+                        continue
+                    pos, size = st
+                    for whence in B_WHENCE:
+                        origin = (0, pos, size)[whence]
+                        for target in b_targets(pos, size, archive):
+                            off = target - origin
+                            tail = [("seek", off, whence)] + probe
+                            if mode != "r" and (thorough or iname == "none"):
+                                out.append((content, head + [("call", 0, c) for c in [("seek", off, whence)] + wprobe]))
+                            out.append((content, head + [("call", 0, c) for c in tail]))
+                            stats["combos"] += 1
+                            stats["interleaved"] += iname != "none"
+    return out, stats
+
+
+def boundary_kind(args):
+    """The boundary block of one kind (runs in a forked worker: own scratch directory)."""
+    kind, layer, archive, tier, seed, d = args
+    d = os.path.join(d, "bk_" + kind)
+    os.makedirs(d, exist_ok=True)
+    bad = []
+    memo = {}
+    cache = {}
+    cases, stats = boundary_cases(kind, layer, archive, tier, seed, d, memo)
+    for content, steps in cases:
+        expect = b_ref_case(layer, content, steps, d)
+        try:
+            got = b_real_case(kind, content, steps, d, cache)
+        except Exception as e:
+            got = "EXC:" + type(e).__name__
+        if got != expect:
+            bad.append(("%s handle vs io (seek boundary block)" % kind, (content, steps), got, expect))
+    for o in cache.values():
+        try:
+            o.close()
+        except Exception:
+            pass
+    return kind, bad[:50], len(bad), dict(sequences=len(cases), **stats)
+
+
+def boundary_block(report, d):
+    import multiprocessing
+    jobs = [(kind, layer, archive, report.tier, report.seed, d) for kind, layer, archive in B_KINDS]
+    try:
+        pool = multiprocessing.get_context("fork").Pool(min(len(jobs), max(2, (os.cpu_count() or 2) // 2)))
+    except Exception:
+        pool = None
+    if pool is None:
+        results = [boundary_kind(j) for j in jobs]
+    else:
+        try:
+            results = pool.map(boundary_kind, jobs, chunksize=1)
+        finally:
+            pool.terminate()
+    bad, cov, total = [], {}, 0
+    for kind, b, nbad, stats in results:
+        bad += b
+        stats["disagreements"] = nbad
+        cov[kind] = stats
+        total += stats["sequences"]
+    return bad, cov, total
 
 
 def explore(tier, seed):
@@ -259,6 +557,10 @@ def run(report, forced=None):
                 total += 1
                 if not same(got, expect, in_domain(s, mdl)):
                     bad.append(("%s handle vs io.FileIO" % kind, (c, s), got, expect))
+        # systematic seek-boundary block, every kind of file object
+        b_bad, b_cov, b_total = boundary_block(report, d)
+        bad += b_bad
+        total += b_total
     finally:
         shutil.rmtree(d, ignore_errors=True)
     seen = set()
@@ -272,8 +574,11 @@ def run(report, forced=None):
         if sig in seen or len(seen) >= 8:
             continue
         seen.add(sig)
-        report.violation(dict(kind="file-object-differs", comparison=what, content=c.decode("latin-1"),
-                              steps=steps_json(s), observed=a, expected=b, theorem="Props/C16.v"))
+        payload = dict(kind="file-object-differs", comparison=what, content=c.decode("latin-1"),
+                       steps=steps_json(s), observed=a, expected=b, theorem="Props/C16.v")
+        if what.endswith("(seek boundary block)"):
+            payload["boundary_kind"] = what.split()[0]
+        report.violation(payload)
     if vm_mism and not bad:
         report.violation(dict(kind="correspondence-broken", vm=vm_mism, theorem="Props/C16.v"), no_input=True)
     cov = dict(evaluations=total, distinct_nontrivial=len(nontrivial),
@@ -283,6 +588,18 @@ def run(report, forced=None):
                samples=[dict(content=cases[k][0].decode("latin-1"), steps=steps_json(cases[k][1]), observed=mem[k])
                         for k in (0, len(cases) // 2, len(cases) - 1)],
                disagreements_checked=len(bad), other_backend_cases=others, vm_compute_crosschecked=n_vm,
+               seek_boundary_block=dict(
+                   rule="per kind: (way of reaching the current position: start / seek to middle / seek to EOF / "
+                        "seek past EOF / read(2) / readline / 2x readline / read-to-EOF / write / truncate below "
+                        "the position) x whence 0,1,2 x target in {0, 1, pos-1, pos, pos+1, EOF-1, EOF, EOF+1, "
+                        "EOF+3} (negative targets, and targets past EOF for archive members, excluded), each "
+                        "followed by tell, read(2), tell, readline, tell (writable modes also: write, tell, "
+                        "seek(0), read()); the same after interleaved calls on a second handle (read / "
+                        "seek-to-end / overwrite / append) and after fs.getsize / fs.getinfo (quick: 2 of the "
+                        "interleavings per position class, drawn from the seed; thorough: all); every mode "
+                        "r,w,a,r+,w+,a+ (archive members: r); oracle = CPython io object of the same layer "
+                        "(FileIO / Buffered*(3) / TextIOWrapper) on a temp file",
+                   sequences=b_total, kinds=b_cov),
                traces_validated_against_impl=total - len(bad))
     return report.finish(proof, cov, assumptions=[
         "seeks to a negative target are outside the compared domain (BytesIO clamps, io.FileIO rejects)",
@@ -323,8 +640,8 @@ def same(a, b, dom):
 def steps_json(s):
     out = []
     for x in s:
-        if x[0] == "open":
-            out.append(["open", x[1]])
+        if x[0] in ("open", "fs"):
+            out.append([x[0], x[1]])
         else:
             out.append(["call", x[1]] + [y.decode("latin-1") if isinstance(y, bytes) else y for y in x[2]])
     return out
@@ -335,8 +652,8 @@ def replay(report, path):
         d = json.load(fh)
     steps = []
     for x in d["steps"]:
-        if x[0] == "open":
-            steps.append(("open", x[1]))
+        if x[0] in ("open", "fs"):
+            steps.append((x[0], x[1]))
         else:
             c = tuple(y.encode("latin-1") if isinstance(y, str) and x[2] in ("write", "writelines") and k >= 1 else y
                       for k, y in enumerate(x[2:]))
@@ -344,6 +661,16 @@ def replay(report, path):
     content = d["content"].encode("latin-1")
     t = tempfile.mkdtemp(prefix="pyfs2verif_")
     try:
+        if d.get("boundary_kind"):
+            kind = d["boundary_kind"]
+            layer = dict((k, l) for k, l, _a in B_KINDS)[kind]
+            cache = {}
+            a, b = b_real_case(kind, content, steps, t, cache), b_ref_case(layer, content, steps, t)
+            for o in cache.values():
+                o.close()
+            print("%-9s:" % kind, a)
+            print("io (%s):" % layer, b)
+            return 0 if a == b else 1
         a, b = mem_case(content, steps), fileio_case(content, steps, t)
     finally:
         shutil.rmtree(t, ignore_errors=True)
